@@ -37,6 +37,9 @@ FailedC01(r) ==
                     /\ o.reprb = C!Repr0(heap, info, k)
                     /\ o.desc = <<C!D1(heap[k], 0), C!D2(heap[k])>>
                     /\ o.databytes = C!Data(heap[k])))
+    \* cells obtained by converting ONE slice state in several ways (to_cell, to_builder().end_cell(), store_slice) are one cell
+    \cup Clause("conversions_of_one_slice_agree", Has(r, "agree") => \A g \in 1..Len(r.agree) : \A a, b \in 1..Len(r.agree[g]) :
+                    r.cells[r.agree[g][a]].hash = r.cells[r.agree[g][b]].hash)
     \cup Clause("eq_iff_hash", \A p \in 1..Len(r.pairs) :
                     LET q == r.pairs[p] IN (q[3] = 1) <=> (C!TopHash(heap, info, q[1]) = C!TopHash(heap, info, q[2])))
     \cup Clause("dictkey_iff_hash", \A p \in 1..Len(r.pairs) :
